@@ -110,6 +110,15 @@ def distance (a : Arena) (s t : Nat) : QR (Option Int × Nat) :=
     let tail := ps.drop c ++ pt.drop c
     pure (optSum (tail.map (fun i => (nd a i).pedge)), tail.length)
 
+/-- `Tree::get_common_ancestor` as the public entry point (repaired): the `source == target` shortcut answers only for a
+    node of the tree; an id that was removed or never handed out is refused like everywhere else -/
+def commonAncestorPub (a : Arena) (s t : Nat) : QR Nat :=
+  if s = t then (if isLive a s then .ok s else .err "NodeNotFound") else commonAncestor a s t
+
+/-- `Tree::get_distance` as the public entry point (repaired): same guard on the `source == target` shortcut -/
+def distancePub (a : Arena) (s t : Nat) : QR (Option Int × Nat) :=
+  if s = t then (if isLive a s then .ok (some 0, 0) else .err "NodeNotFound") else distance a s t
+
 /-- a distance as the real code's `f64`: the sum when defined, else the edge count (`unit` scaled) -/
 def distVal (unit : Int) (d : Option Int × Nat) : Int :=
   match d.1 with | some s => s | none => unit * d.2
